@@ -995,8 +995,67 @@ func definitelyNonNil(v ssa.Value) bool {
 		return definitelyNonNil(x.X)
 	case *ssa.ChangeInterface:
 		return definitelyNonNil(x.X)
+	case *ssa.UnOp:
+		// a sentinel: an unexported package-level variable that is given a fresh error (or
+		// another non-nil value) by its initialiser and is never assigned again
+		if x.Op == token.MUL {
+			if g, ok := x.X.(*ssa.Global); ok && theWorld != nil {
+				return theWorld.sentinelNonNil(g)
+			}
+		}
 	}
 	return false
+}
+
+var sentinelCache = map[*ssa.Global]bool{}
+
+func (w *World) sentinelNonNil(g *ssa.Global) bool {
+	if v, ok := sentinelCache[g]; ok {
+		return v
+	}
+	sentinelCache[g] = false
+	if g.Pkg == nil || !strings.HasPrefix(g.Pkg.Pkg.Path(), modulePath) || g.Object() == nil || g.Object().Exported() {
+		return false
+	}
+	stores := 0
+	ok := true
+	scan := func(f *ssa.Function, isInit bool) {
+		instrsOf(f, func(in ssa.Instruction) {
+			var ops []*ssa.Value
+			for _, op := range in.Operands(ops) {
+				if *op != ssa.Value(g) {
+					continue
+				}
+				switch x := in.(type) {
+				case *ssa.UnOp:
+					if x.Op == token.MUL {
+						continue
+					}
+					ok = false
+				case *ssa.Store:
+					if x.Addr == ssa.Value(g) && isInit && definitelyNonNil(x.Val) {
+						stores++
+						continue
+					}
+					ok = false
+				default:
+					ok = false
+				}
+			}
+		})
+	}
+	pkgInit := g.Pkg.Func("init")
+	for _, f := range w.SrcFuncs() {
+		if f != pkgInit {
+			scan(f, false)
+		}
+	}
+	if pkgInit != nil {
+		scan(pkgInit, true)
+	}
+	res := ok && stores == 1
+	sentinelCache[g] = res
+	return res
 }
 
 // walkResolvedCmp handles `if x == y` / `if x != y` where x or y is a phi determined by the
